@@ -234,9 +234,14 @@ func (iloc *itemLoc) read(c *Collection, withValue bool) (icur *Item, err error)
 
 // NumBytes return the number of bytes needed for the collection
 func (iloc *itemLoc) NumBytes(c *Collection) int {
+	// Read the cached item BEFORE the location, as itemLoc.Copy does: a location
+	// only ever goes from nil to set, and an item is evicted only once its
+	// location is set, so (item, then loc) can never come out as (nil, nil).  The
+	// other order can, when a Flush and an evicting reader run between the two
+	// reads, and the item's bytes were then missing from every aggregate above it.
+	i := iloc.Item()
 	loc := iloc.Loc()
 	if loc.isEmpty() {
-		i := iloc.Item()
 		if i == nil {
 			return 0
 		}
